@@ -293,6 +293,7 @@ def build_pools(ctx):
         ("container-pairs", pick(docs.container_pairs(), 500), ()),
         ("marker-variants", pick(docs.corpus_marker_variants(), 800), ()),
         ("multi-pairs", pick(docs.multi_pairs(), 400), ()),
+        ("nest-drop", list(docs.nest_drop()), ()),          # closed family, complete in both tiers
         ("inline-emph", pick(docs.inline_emph(), 1500), ()),
         ("inline-links", pick(docs.inline_links(), 800), ()),
         ("ext-corpus", list(EXT_CORPUS), EXTS),
